@@ -157,31 +157,43 @@ def run(c):
 
     bad = [k for k in range(len(cases)) if verdicts[k + 1]["viol"]]
     c.extra["rejected_cases"] = len(bad)
-    seen = set()
+    # rejected cases are grouped by structural signature; one member of each group is re-executed exactly (same
+    # scenario, same host fault plan, same kill point or no kill).  Undisturbed members go first (nothing in them depends
+    # on where a kill lands); a kill point can land a few calls away from where it landed before (timer wake-ups), so a
+    # member whose re-execution is accepted is followed by the next member.  A group none of whose members reproduces
+    # is not believed (exit 2).
+    groups = {}
     for k in bad:
         rows, s = cases[k]
-        broken = sorted(verdicts[k + 1]["viol"])
-        sig = {"broken": broken, "scenario": s["scenario"]}
-        key = json.dumps(sig, sort_keys=True)
-        if key in seen:
-            c.violation("", sig)
-            continue
-        seen.add(key)
-        sw = kk.Sweeper("c08_re_%d" % os.getpid(), bindir, all_syscalls=thorough)
-        try:
-            again = sw.case(1, s["scenario"], s["plan"], tuple(s["point"][:2]) if s["point"] else None)
-        finally:
-            sw.close(keep=bool(os.environ.get("VERIF_KEEP")))
-        v2 = decide(c, [again], "c08_replay_%d_%d" % (os.getpid(), k))[1]
-        if not set(broken) & set(v2["viol"]):
-            c.extra.setdefault("unreproduced", []).append({"case": s, "first": broken, "second": sorted(v2["viol"])})
-            raise util.ToolError("a rejected case (%s) did not reproduce when re-executed; not believed" % key)
+        sig = {"broken": sorted(verdicts[k + 1]["viol"]), "scenario": s["scenario"]}
+        groups.setdefault(json.dumps(sig, sort_keys=True), (sig, []))[1].append(k)
+    for key, (sig, members) in sorted(groups.items()):
+        members.sort(key=lambda k: (cases[k][1]["killed"], k))
+        confirmed, tried = None, []
+        for k in members[:6]:
+            rows, s = cases[k]
+            sw = kk.Sweeper("c08_re_%d" % os.getpid(), bindir, all_syscalls=thorough)
+            try:
+                again = sw.case(1, s["scenario"], s["plan"], tuple(s["point"][:2]) if s["point"] else None)
+            finally:
+                sw.close(keep=bool(os.environ.get("VERIF_KEEP")))
+            v2 = decide(c, [again], "c08_replay_%d_%d" % (os.getpid(), k))[1]
+            tried.append({"plan": s["plan"], "point": s["point"], "second": sorted(v2["viol"])})
+            if set(sig["broken"]) <= set(v2["viol"]):
+                confirmed = (k, again)
+                break
+        if confirmed is None:
+            c.extra.setdefault("unreproduced", []).append({"signature": sig, "members": len(members), "tried": tried})
+            raise util.ToolError("rejected cases (%s, %d of them) did not reproduce when re-executed (%d tried); not believed" % (
+                key, len(members), len(tried)))
+        k, again = confirmed
+        s = again[1]
         what = ("C08 clause(s) %s broken in scenario %s, host fault plan %s, first process %s: key directory then %s (tmp %s), host "
-                "latch %s; restarted process: %s, %d new key request(s), host saw %s" % (
-                    broken, s["scenario"], s["plan"], ("killed before '%s'" % s["killed_before"]) if s["killed"] else "not killed",
+                "latch %s; restarted process: %s, %d new key request(s), host saw %s; %d case(s) with this signature" % (
+                    sig["broken"], s["scenario"], s["plan"], ("killed before '%s'" % s["killed_before"]) if s["killed"] else "not killed",
                     json.dumps(s["final_after_kill"]), json.dumps(s["tmp_after_kill"]), s["latched_at_kill"], s["restart_result"],
-                    s["restart_acquires"], s["host_requests_restart"]))
-        c.violation(what, sig, {"scenario": s["scenario"], "plan": s["plan"], "point": s["point"], "rows": again[0], "summary": again[1]})
+                    s["restart_acquires"], s["host_requests_restart"], len(members)))
+        c.violation(what, sig, {"scenario": s["scenario"], "plan": s["plan"], "point": s["point"], "rows": again[0], "summary": s})
     fold(c, t, out)
     if not c.violations:
         kk.cleanup_traces("c08_")
